@@ -98,6 +98,9 @@ func runHistory(t *testing.T, prop string, seed int64, idx int, n int, replay *S
 				fmt.Fprintln(os.Stderr, "  ->", jsonKey(w.line(out, closed, note)))
 			}
 			line := w.line(out, closed, note)
+			if op["op"] == "join" {
+				line.Welcome, w.lastRoles = w.lastRoles, ""
+			}
 			if op["op"] == "snapshot" {
 				line.Sizes = w.lastSizes
 				w.lastSizes = nil
@@ -471,6 +474,12 @@ func TestFamily(t *testing.T) {
 		}
 		wg.Wait()
 	}
+	// C11: what a realm announces in WELCOME must not depend on which other realms the router has.
+	// Reference: a fresh process with that realm alone (one with, one without event history).
+	if *flagProperty == "C11" && *flagReplay == "" {
+		welcomeCheck(sum, all)
+	}
+
 	// directed witnesses of recorded findings
 	if *flagReplay == "" {
 		for _, wt := range witnessesFor(*flagProperty) {
@@ -624,4 +633,66 @@ func shrink(r histResult, step int) (hcommon.Disagreement, bool) {
 	d := hcommon.Disagreement{Input: cur, Impl: a, Model: b, SpecViolation: true,
 		Detail: fmt.Sprintf("history %d: model and implementation differ at step %d of the minimised history (%d ops)", r.Scenario.ID, st, len(cur.Ops))}
 	return d, true
+}
+
+// welcomeCheck compares the roles every WELCOME announced with the roles a router announces that
+// has this realm alone, obtained from a fresh child process (package-level state of the router
+// code is process-wide, so the reference must not share a process with other realms).
+func welcomeCheck(sum *hcommon.Summary, all []histResult) {
+	base := map[string]any{"strict": false, "disclose": false, "metaKill": true, "metaModify": false, "metaStrict": false}
+	mk := func(id int, hist bool) Scenario {
+		cfg := map[string]any{"uri": "r1"}
+		for k, v := range base {
+			cfg[k] = v
+		}
+		if hist {
+			cfg["history"] = []any{map[string]any{"topic": "a", "match": "exact", "limit": 2}}
+		}
+		return Scenario{ID: id, Cfg: roundTrip(cfg), Ops: []map[string]any{roundTrip(mkJoin(1, map[string][]string{"caller": {}, "subscriber": {}}))}}
+	}
+	ref := map[bool]string{}
+	for _, hist := range []bool{true, false} {
+		// one process each: the reference for a realm with history must not come after a realm without
+		rs, cid, _ := runChild(*flagOut, fmt.Sprintf("welcome-ref-%v", hist), batchReq{Property: *flagProperty, Seed: *flagSeed, Replay: []Scenario{mk(3000001, hist)}})
+		if cid >= 0 || len(rs) == 0 || len(rs[0].Lines) == 0 || rs[0].Lines[0].Welcome == "" {
+			sum.Notes = append(sum.Notes, "welcome reference could not be obtained")
+			return
+		}
+		ref[hist] = rs[0].Lines[0].Welcome
+	}
+	hasHist := func(c map[string]any) bool { h, ok := c["history"].([]any); return ok && len(h) > 0 }
+	for _, r := range all {
+		cfgOf := func(name string) (map[string]any, bool) {
+			if list, ok := r.Scenario.Cfg["realms"].([]any); ok {
+				for _, x := range list {
+					if m, ok := x.(map[string]any); ok && m["uri"] == name {
+						return m, true
+					}
+				}
+				if t, ok := r.Scenario.Cfg["template"].(map[string]any); ok {
+					return t, true
+				}
+				return nil, false
+			}
+			return r.Scenario.Cfg, r.Scenario.Cfg["uri"] == name || name == ""
+		}
+		for i, op := range r.Scenario.Ops {
+			if op["op"] != "join" || i >= len(r.Lines) || r.Lines[i].Welcome == "" {
+				continue
+			}
+			name, _ := op["realm"].(string)
+			c, ok := cfgOf(name)
+			if !ok {
+				continue
+			}
+			sum.Count("welcome_checked")
+			if want := ref[hasHist(c)]; r.Lines[i].Welcome != want {
+				sc := r.Scenario
+				sc.Ops = sc.Ops[:i+1]
+				sum.Disagreements = append(sum.Disagreements, hcommon.Disagreement{Input: sc, Impl: r.Lines[i].Welcome, Model: want, SpecViolation: true,
+					Detail: fmt.Sprintf("history %d: the roles in the WELCOME of realm %q differ from what a router with that realm alone announces: what a realm tells its sessions depends on other realms", r.Scenario.ID, name)})
+				return
+			}
+		}
+	}
 }
